@@ -182,3 +182,27 @@ func (P *Program) isZapPkg(p *types.Package) bool {
 	}
 	return p.Path() == zapMod || strings.HasPrefix(p.Path(), zapMod+"/")
 }
+
+// targetsOf: the function a contract id names; for a generic function, its instantiations.
+func (P *Program) targetsOf(id string) []*ssa.Function {
+	fn := P.Funcs[id]
+	if fn != nil && fn.TypeParams().Len() == 0 {
+		return []*ssa.Function{fn}
+	}
+	var out []*ssa.Function
+	var ids []string
+	for k := range P.Funcs {
+		ids = append(ids, k)
+	}
+	sort.Strings(ids)
+	for _, k := range ids {
+		f := P.Funcs[k]
+		if o := f.Origin(); o != nil && shortID(o.String()) == id && f.Blocks != nil {
+			out = append(out, f)
+		}
+	}
+	if len(out) == 0 && fn != nil {
+		return []*ssa.Function{fn}
+	}
+	return out
+}
